@@ -37,7 +37,17 @@ def loop_over(e, reg):
         return False
     it = e.a.get("iter")
     if it is not None:
-        return any(isinstance(x, tuple) and x[:2] == ("reg", reg) for x in subterms(it))
+        # for x in R[addr] / R[addr].items()|values()|keys() / list|tuple|sorted|reversed(...) of those
+        t = it
+        for _ in range(4):
+            if isinstance(t, tuple) and t and t[0] == "call" and isinstance(t[1], tuple) and t[1][0] == "builtin" \
+                    and t[1][1] in ("list", "tuple", "sorted", "reversed", "iter", "set") and t[2]:
+                t = t[2][0]
+            else:
+                break
+        if isinstance(t, tuple) and t and t[0] == "call" and isinstance(t[1], tuple) and t[1][0] == "attr" and t[1][2] in ("items", "values", "keys", "copy"):
+            t = t[1][1]
+        return isinstance(t, tuple) and t[:2] == ("reg", reg)
     t = e.a.get("test")
     if t is not None:
         return any(isinstance(x, tuple) and x[:2] == ("reg", reg) for x in subterms(t))
